@@ -56,63 +56,32 @@ async def _replay_graph(ctx, scratch, tab, lines, label):
 
 
 def _model_runs(ctx, depth):
-    """What the model says by itself: (1) with the shallow copy of cachebox (the code as it is) the statement does not
-    hold - counterexamples are kept for replay on the code; (2) with deep-copying post-processing it holds for every
-    kind of table and for histories that mix two cached tables."""
-    cex = []
-    for inv in ctx.pick(["GetReturnsDbRow"], ["GetReturnsDbRow", "CacheCoherent", "RetsSeparate"]):
-        v = ctx.tlc("Persistence", "MC_Persistence", "asis.cfg", timeout=1800, count=False, workers=1,
-                    files={"asis.cfg": P.cfg_text(depth, gen=False, invariants=[inv])})
-        ctx.require(v.error in (None, "invariant"), "unexpected TLC outcome: %s" % v.error)
-        if v.error == "invariant" and v.trace:
-            cex.append((inv, [(s["state"]["obs"], s["state"].get("focus")) for s in v.trace[1:]]))
-    ctx.extra["asis_model_counterexamples"] = [{"invariant": i, "history": [o for o, _ in h], "kind": h[0][1]} for i, h in cex]
-    f = ctx.tlc("Persistence", "MC_Persistence", "fix.cfg", timeout=1800, coverage=True,
+    """With deep-copying post-processing of the cached getters the statement holds in the model for every kind of
+    table (and, thorough tier, for histories that mix two cached tables).  The as-is model (shallow copy) is explored
+    by the generation run, which also evaluates the properties on every transition."""
+    f = ctx.tlc("Persistence", "MC_Persistence", "fix.cfg", timeout=1800, coverage=not ctx.quick,
                 files={"fix.cfg": P.cfg_text(depth, deep=True, gen=False, invariants=INVS)})
     ctx.require(f.ok, "model with deep-copying getters violates %s: specification error\n%s" % (f.violated, f.stdout[-800:]))
-    ctx.require_coverage(f, ACTIONS)
+    if not ctx.quick:        # quick tier: vacuity is guarded by the action sets of the generation run (same actions)
+        ctx.require_coverage(f, ACTIONS)
+    ctx.require(f.distinct > 5000, "suspiciously small state space: %d" % f.distinct)
     if not ctx.quick:
         two = ctx.tlc("Persistence", "MC_Persistence", "two.cfg", timeout=1800,
                       files={"two.cfg": P.cfg_text(6, deep=True, gen=False, two=True, invariants=INVS)})
         ctx.require(two.ok, "two-table model violates %s" % two.violated)
-    return cex
 
 
-async def _replay_cex(ctx, scratch, cex):
-    """A counterexample of the as-is model says where to look; whether the CODE breaks the statement is decided by
-    running that history on the code (the violation, if any, is reported by the Replayer under what it observed)."""
-    env = await P.Env(os.path.join(scratch, "c09_cex.db")).open()
-    try:
-        for inv, hist in cex:
-            kind = hist[0][1]
-            for tab in [t for t in P.TABLES if t.kind == kind]:
-                ids, rets, leaked, ver = [], [], False, 1
-                for c, _ in hist:
-                    act = c["kind"]
-                    if act == "add":
-                        ids.append(await tab.add(env, ver))
-                        ver += 1
-                    elif act == "update":
-                        await tab.update(env, ids[c["id"] - 1], c["f"], ver)
-                        ver += 1
-                    elif act == "get":
-                        rets.append(await tab.get(env, ids[c["id"] - 1]))
-                        rets[:] = rets[-2:]
-                    elif act == "mut_top":
-                        tab.mut_top(rets[c["k"] - 1])
-                    elif act == "mut_nested":
-                        tab.mut_nested(rets[c["k"] - 1])
-                await env.commit()
-                cached = getattr(env.db, "%s_cache" % tab.name)
-                for cid in ids:
-                    got = tab.normalise(await tab.get(env, cid))
-                    if P.classify(tab, got, tab.truth(env, cid), None):
-                        leaked = True
-                shared = any(any(v is w for v in r.values() for w in cached[cid].values() if isinstance(w, (dict, list)))
-                             for r in rets for cid in ids if cid in cached and isinstance(r, dict))
-                ctx.count("model_cex_%s_followed_by_code:%s" % (inv, tab.name), 1 if (leaked or shared) else 0)
-    finally:
-        await env.close()
+def _asis_counterexamples(ctx, lines):
+    """Shortest histories after which the as-is model breaks each property (first violating transition in BFS order)."""
+    out = {}
+    for path in P.build_paths(lines):
+        tr = path[-1]
+        for inv, key in (("GetReturnsDbRow", "getok"), ("CacheCoherent", "coherent"), ("RetsSeparate", "separate")):
+            if not tr[key] and inv not in out:
+                out[inv] = {"kind": tr["focus"], "history": P.history_of(path)}
+        if len(out) == 3:
+            break
+    return out
 
 
 def run(ctx):
@@ -122,9 +91,12 @@ def run(ctx):
                 "mutation, or a read after at least two earlier calls")
     scratch = ctx.scratch("db")
     depth = ctx.pick(6, 7)
-    cex = _model_runs(ctx, depth)
-    ctx.require(cex, "the as-is model no longer shows the shallow-copy leak: model out of date")
+    _model_runs(ctx, depth)
     lines = _gen(ctx, depth)
+    cex = _asis_counterexamples(ctx, lines)
+    ctx.extra["asis_model_counterexamples"] = cex
+    ctx.require(len(cex) == 3 and all(c["kind"] in "AC" for c in cex.values()),
+                "the as-is model no longer shows the shallow-copy leak on cached tables: model out of date (%s)" % cex)
     by_kind = {k: [t for t in lines if t["focus"] == k] for k in "ABCD"}
     for k in "ABCD":
         acts = {t["act"] for t in by_kind[k]}
@@ -134,27 +106,32 @@ def run(ctx):
     leak_edges = sum(1 for t in lines if t["reads"] != t["truth"])
     ctx.require(leak_edges > 0, "no transition of the as-is model reaches a state whose reads differ from the database")
     ctx.count("graph_edges_where_asis_model_predicts_a_wrong_read", leak_edges)
-    lines2 = _gen(ctx, ctx.pick(4, 5), two=True)
+    lines2 = [] if ctx.quick else _gen(ctx, 5, two=True)
     ctx.count("graph_edges:two_tables", len(lines2))
+    # quick tier: complete depth-6 graph on `step`, depth 5 on the first table of the other kinds, depth 4 elsewhere;
+    # thorough tier: depth 7 on the first table of each kind, depth 6 elsewhere
+    first = {"A": "step", "B": "workflow", "C": "token", "D": "provenance"}
+
+    def replay_depth(tab):
+        if ctx.quick:
+            return depth if tab.name == "step" else (depth - 1 if first[tab.kind] == tab.name else depth - 2)
+        return depth if first[tab.kind] == tab.name else depth - 1
 
     async def main():
-        await _replay_cex(ctx, scratch, cex)
-        # B-edge.  Quick tier: the first table of each kind gets the complete graph, the others the graph of depth - 1
-        for kind in "ABCD":
-            full = by_kind[kind]
-            short = [t for t in full if t["depth"] <= depth - 1]
-            for j, tab in enumerate([t for t in P.TABLES if t.kind == kind]):
-                whole = j == 0 or not ctx.quick
-                await _replay_graph(ctx, scratch, tab, full if whole else short, "d%d" % (depth if whole else depth - 1))
-        await _replay_two(ctx, scratch, lines2)
+        for tab in P.TABLES:
+            d = replay_depth(tab)
+            await _replay_graph(ctx, scratch, tab, [t for t in by_kind[tab.kind] if t["depth"] <= d], "d%d" % d)
+            ctx.count("replay_depth:%s" % tab.name, d)
+        if lines2:
+            await _replay_two(ctx, scratch, lines2)
         return True
 
     res, err = aio.run(main(), timeout=ctx.pick(900, 3000))
     if err is not None:
         raise err
     ctx.exhaustive = True
-    ctx.sample({"kind": "A", "example_history": [["add"], ["get", 1], ["mut_nested", 1], ["get", 1]],
-                "as_is_model_counterexamples": ctx.extra.get("asis_model_counterexamples")})
+    ctx.sample({"as_is_model_counterexamples": cex})
+    ctx.sample(P.history_of(next(p for p in P.build_paths(by_kind["A"]) if len(p) == depth and p[-1]["act"] == "get")))
     ctx.assumptions += [
         "single caller: histories, not schedules (a get_* in flight while update_* pops the cache is outside C09)",
         "the truth is read after committing the connection of the database under test (StreamFlow only commits on close)",
